@@ -405,6 +405,12 @@ class CSSImportRule(cssrule.CSSRule):
                 if 'name' == typ:
                     self._seq[i] = (name, typ, item.line, item.col)
                     break
+            else:
+                if name is not None:
+                    # a rule parsed without a name has no such item yet
+                    self._seq._readonly = False
+                    self._seq.append(name, 'name')
+                    self._seq._readonly = True
 
             # set title of imported sheet
             if self.styleSheet:
